@@ -201,12 +201,15 @@ fn build_column_array(
             }
         }
         DataType::Timestamp => {
-            // Timestamps stored as Int64 (Unix milliseconds)
+            // Unix milliseconds in a timestamp column (files written before this column type
+            // existed hold Int64 columns and are still read back as Int64)
             let values: Vec<Option<i64>> = tuples
                 .iter()
                 .map(|t| t.get(col_idx).and_then(super::Value::as_timestamp))
                 .collect();
-            Ok(Arc::new(Int64Array::from(values)))
+            Ok(Arc::new(arrow::array::TimestampMillisecondArray::from(
+                values,
+            )))
         }
         DataType::VectorInt8 { dim } => {
             // Build array from int8 vectors - use FixedSizeList when dimension is known
@@ -268,6 +271,12 @@ fn extract_value_from_array(array: &dyn Array, row_idx: usize) -> Result<Value, 
     }
     if let Some(arr) = array.as_any().downcast_ref::<Float64Array>() {
         return Ok(Value::Float64(arr.value(row_idx)));
+    }
+    if let Some(arr) = array
+        .as_any()
+        .downcast_ref::<arrow::array::TimestampMillisecondArray>()
+    {
+        return Ok(Value::Timestamp(arr.value(row_idx)));
     }
     if let Some(arr) = array.as_any().downcast_ref::<StringArray>() {
         return Ok(Value::String(Arc::from(arr.value(row_idx))));
@@ -378,7 +387,9 @@ fn empty_array_for_type(dt: &DataType) -> ArrayRef {
                 ))
             }
         }
-        DataType::Timestamp => Arc::new(Int64Array::from(Vec::<i64>::new())),
+        DataType::Timestamp => Arc::new(arrow::array::TimestampMillisecondArray::from(
+            Vec::<i64>::new(),
+        )),
     }
 }
 
